@@ -206,24 +206,48 @@ def dec_rows(prog, path, max_configs=6000):
 
 
 def split_cond_results(outs):
-    """an accessor that returns a comparison of a byte it read (`Ok(b == 0xf5)`) has one path for two table cells: the row is split
-    at the comparison so that each cell carries its constant"""
-    from .absint import Cond, Outcome, iv_and, iv_sub
+    """an accessor that returns a comparison of a byte it read (`Ok(b == 0xf5)`, `Ok(Token::Bool(b == 0xf5))`) has one path for two
+    table cells: the row is split at the comparison so that each cell carries its constant"""
+    from .absint import Cond, Outcome, Tup, iv_and, iv_sub
     from .prims import RESULT, norm_adt
+
+    def find(v, depth=0):
+        if isinstance(v, Cond):
+            return v
+        if depth > 6:
+            return None
+        kids = v.fields if isinstance(v, (Adt, Tup)) else ()
+        for k in kids:
+            c = find(k, depth + 1)
+            if c is not None:
+                return c
+        return None
+
+    def subst(v, c, const):
+        if v is c:
+            return Int.const(const)
+        if isinstance(v, Adt):
+            return Adt(v.adt, v.variant, [subst(k, c, const) for k in v.fields])
+        if isinstance(v, Tup):
+            return Tup([subst(k, c, const) for k in v.fields])
+        return v
+    work = list(outs)
     res = []
-    for o in outs:
+    guard = 0
+    while work:
+        o = work.pop(0)
+        guard += 1
         v = o.value
-        if o.kind == 'return' and isinstance(v, Adt) and norm_adt(v.adt) == RESULT and v.variant == 0 and v.fields and isinstance(v.fields[0], Cond):
-            c = v.fields[0]
-            rng = o.st.ranges.get(c.sym)
-            parts = [(iv_and(rng, c.tset), 1), (iv_sub(rng, c.tset), 0)] if rng is not None else []
-            parts = [(p_, b_) for p_, b_ in parts if p_]
-            if parts:
-                for p_, b_ in parts:
-                    st2 = o.st.clone()
-                    st2.ranges[c.sym] = p_
-                    o2 = Outcome(st2, o.kind, Adt(v.adt, 0, [Int.const(b_)]), o.why)
-                    res.append(o2)
-                continue
-        res.append(o)
+        c = None
+        if guard < 4000 and o.kind == 'return' and isinstance(v, Adt) and norm_adt(v.adt) == RESULT and v.variant == 0 and v.fields:
+            c = find(v.fields[0])
+        rng = o.st.ranges.get(c.sym) if c is not None else None
+        if c is None or rng is None:
+            res.append(o)
+            continue
+        parts = [(p_, b_) for p_, b_ in ((iv_and(rng, c.tset), 1), (iv_sub(rng, c.tset), 0)) if p_]
+        for p_, b_ in parts:
+            st2 = o.st.clone()
+            st2.ranges[c.sym] = p_
+            work.append(Outcome(st2, o.kind, subst(v, c, b_), o.why))
     return res
